@@ -74,7 +74,7 @@ fn decode(tape: &[u32], tier: Tier) -> Case {
         }
         s
     };
-    Case { kind, spec, wseed: t.raw(), wmode: t.pick(4) as u32, xseed: t.raw(), xmode: t.pick(4) as u32, xscale: [1.0, 1.0, 0.01, 30.0, 300.0][t.pick(5)], trained: t.chance(1, 5) }
+    Case { kind, spec, wseed: t.raw(), wmode: t.pick(4) as u32, xseed: t.raw(), xmode: t.pick(4) as u32, xscale: [1.0, 1.0, 0.01, 30.0, 300.0, 1e-9, 1e-20][t.pick(7)], trained: t.chance(1, 5) }
 }
 
 fn conv_nondefault(l: &LayerSpec) -> bool {
@@ -325,7 +325,7 @@ impl Prop for C02 {
         t.pick(300_000, 20_000_000)
     }
     fn rule(&self) -> String {
-        "tape-decoded cases: (3/4) one layer of a chosen kind (dense incl. soft-max, convolution, deconvolution, max-pool) over the configuration lattice channels 1-3, height/width 1-8 (thorough 1-12) non-square, filters 1-3 (1/6 of the convolutions: 12-24), dense inputs 1-12 (1/6: 60-300), kernel 1-3 (5), stride 1-3 (4), padding 0-2, dilation 1-2 (3), constructed so that the effective kernel fits; distinct random taps and inputs at scales 0.01/1/30 (dense also 300); each spatial layer is fed the c x h x w tensor and its flattening. (1/4) sequences of 2-5 fitting layers incl. feedback blocks without skips and flat<->spatial transitions; one in five of them is compared after a short early-stopped learn() run with dropout layers (trained weights read back through the hooks). Oracles: f64 defining operators with a forward-error bound 4(n+1)eps*sum|terms| (max-pool exact), bitwise equality of both input representations, bitwise equality of Network::forward/predict with the fold of the library's own single-layer forwards, final output vs f64 reference network (2e-4 relative to the output scale, skipped near kinks/ties). Non-trivial: spatial layer or sequence. Distinct = full specification.".into()
+        "tape-decoded cases: (3/4) one layer of a chosen kind (dense incl. soft-max, convolution, deconvolution, max-pool) over the configuration lattice channels 1-3, height/width 1-8 (thorough 1-12) non-square, filters 1-3 (1/6 of the convolutions: 12-24), dense inputs 1-12 (1/6: 60-300), kernel 1-3 (5), stride 1-3 (4), padding 0-2, dilation 1-2 (3), constructed so that the effective kernel fits; distinct random taps and inputs at scales 1e-20/1e-9/0.01/1/30 (dense also 300); each spatial layer is fed the c x h x w tensor and its flattening. (1/4) sequences of 2-5 fitting layers incl. feedback blocks without skips and flat<->spatial transitions; one in five of them is compared after a short early-stopped learn() run with dropout layers (trained weights read back through the hooks). Oracles: f64 defining operators with a forward-error bound 4(n+1)eps*sum|terms| (max-pool exact), bitwise equality of both input representations, bitwise equality of Network::forward/predict with the fold of the library's own single-layer forwards, final output vs f64 reference network (2e-4 relative to the output scale, skipped near kinks/ties). Non-trivial: spatial layer or sequence. Distinct = full specification.".into()
     }
     fn run_case(&self, tape: &[u32], ev: &mut CaseEv) -> CheckResult {
         let c = decode(tape, self.0);
